@@ -33,27 +33,87 @@ def goal_foreign_read(spec, pres, posts):
   import numpy as np
 
   diffs = []
-  for k in posts[0]:
-    a, b = posts[0][k], posts[1][k]
-    if a.shape == b.shape and not np.array_equal(a, b, equal_nan=True) and k != spec["env"]["label"]:
-      diffs.append(k)
-  if spec["env"]["label"] in posts[0]:
-    a, b = posts[0][spec["env"]["label"]].copy(), posts[1][spec["env"]["label"]].copy()
-    idx = tuple(spec["env"]["idx"])
-    try:
-      a[idx] = 0
-      b[idx] = 0
-    except Exception:
-      pass
-    if not np.array_equal(a, b, equal_nan=True):
-      diffs.append(spec["env"]["label"])
-  return (not diffs), f"changing {spec['env']['label']}{spec['env']['idx']} (not the thread's cell) changed outputs {diffs}"
+  for other in posts[1:]:
+    for k in posts[0]:
+      a, b = posts[0][k], other[k]
+      if a.shape == b.shape and not np.array_equal(a, b, equal_nan=True) and k != spec["env"]["label"]:
+        diffs.append(k)
+    if spec["env"]["label"] in posts[0]:
+      a, b = posts[0][spec["env"]["label"]].copy(), other[spec["env"]["label"]].copy()
+      idx = tuple(spec["env"]["idx"])
+      try:
+        a[idx] = 0
+        b[idx] = 0
+      except Exception:
+        pass
+      if not np.array_equal(a, b, equal_nan=True):
+        diffs.append(spec["env"]["label"])
+  return (not diffs), f"changing {spec['env']['label']}{spec['env']['idx']} (not the thread's cell) changed outputs {sorted(set(diffs))}"
+
+
+def influence_replay(ctx, k, loc, shapes, cap, acc_where, acc_label, bad_index_cond_builder, qn, pid, timeout_ms=120000):
+  """Second stage for a wrong-index READ: re-execute the thread with exact real arithmetic and ask the solver for a state
+  in which the value of the wrongly indexed cell actually influences something the thread writes (a stored value or the
+  condition of a store); replay exactly that state on the real kernel with the cell poked."""
+  kt = lib.kernel_thread(k, shapes=shapes, unroll=2, alias_inout=True, cap=cap, interp_kw={"float_uf": False})
+  it = kt.it
+  target = None
+  for a in it.accesses:
+    if a.kind == "R" and a.cell.name == acc_label and a.where == acc_where and a.val is not None:
+      bad = bad_index_cond_builder(kt, a)
+      if bad is False:
+        continue
+      target = (a, bad)
+      break
+  if target is None:
+    return False, "influence query: access not found in the exact re-execution"
+  a, bad = target
+  vals = a.val.c if isinstance(a.val, core.Vec) else [a.val]
+  subs = []
+  pokes = []
+  for j, v in enumerate(vals):
+    if is_sym(v):
+      pv = z3.Const(f"poke!{j}", v.sort())
+      subs.append((v, pv))
+      pokes.append((j, pv))
+  if not subs:
+    return False, "influence query: read value is concrete"
+  differ = []
+  for w in it.accesses:
+    if w.kind[0] not in "WA" or w.val is None:
+      continue
+    g = core.zbool(w.guard)
+    g2 = z3.substitute(g, *subs)
+    wv = w.val.c if isinstance(w.val, core.Vec) else [w.val]
+    vd = []
+    for x in wv:
+      if is_sym(x):
+        vd.append(x != z3.substitute(x, *subs))
+    differ.append(z3.Or(g != g2, z3.And(g, z3.Or(*vd)) if vd else False))
+  if not differ:
+    return False, "influence query: thread writes nothing"
+  s = z3.Solver()
+  s.set("timeout", timeout_ms)
+  for b in kt.bg:
+    s.add(core.zbool(b))
+  s.add(core.zbool(a.guard), core.zbool(bad), z3.Or(*differ))
+  r = str(s.check())
+  if r != "sat":
+    return False, f"influence query {r}: no state found in which the wrongly indexed value affects a store"
+  m = s.model()
+  variants = [{}, {"__poke__": [[a.cell.name, [kh.mval(m, i) for i in a.idx], (j if len(vals) > 1 else None), kh.mval(m, pv)] for j, pv in pokes]}]
+  rp = lib.make_replay(ctx, kt, loc, qn + "#influence", "goal", goal="checks.worldidx:goal_foreign_read", env={"label": a.cell.name, "idx": list(a.idx), "W": 0, "variants": variants})
+  return rp(m)
 
 
 def unit_kernel(name, pid):
   def run(ctx):
     k, loc, launches = KS[name]
     ctx.encode(k)
+    if loc is None:
+      from wsym import replay as _rp
+
+      loc = f"harvestsig:|{k.key}|{_rp.closure_sig(k)}|{1 if pid == 'C10' else 0}"
     enc = load_encodable()
     nworld = z3.Int("nworld")
     shapes = {}
@@ -73,14 +133,33 @@ def unit_kernel(name, pid):
         if shp is not None and sp and sp[1] and sp[1][0] == "*" and label not in shapes:
           shapes[label] = [int(shp[0])] + [None] * (len(shp) - 1)
       ctx.notes.append(f"closure constants {sorted(cvars)}: batch dimensions bound to the harvested launch ({L.model})")
+    import signal
+
+    class _EncodeTimeout(Exception):
+      pass
+
+    def _alarm(*a):
+      raise _EncodeTimeout()
+
+    budget = 150 if ctx.tier == "quick" else 600
+    signal.signal(signal.SIGALRM, _alarm)
+    signal.setitimer(signal.ITIMER_REAL, budget)
     try:
       kt = lib.kernel_thread(k, shapes=shapes, unroll=2, alias_inout=True, cap=64, interp_kw={"float_uf": True})
+    except _EncodeTimeout:
+      if enc is not None and name in enc:
+        ctx.error(f"kernel {name} is listed in encodable.txt but its symbolic execution exceeded {budget}s")
+      else:
+        ctx.notes.append(f"skipped (symbolic execution exceeded {budget}s): nothing claimed")
+      return
     except core.Unsupported as ex:
       if enc is not None and name in enc:
         ctx.error(f"kernel {name} is listed in encodable.txt but no longer encodes: {ex}")
       else:
         ctx.notes.append(f"skipped (not encodable): {ex}")
       return
+    finally:
+      signal.setitimer(signal.ITIMER_REAL, 0)
     it = kt.it
     fr = getattr(it, "top_frame", None)
     W = []
@@ -151,15 +230,50 @@ def unit_kernel(name, pid):
       qn = f"{a.kind[0]}:{a.cell.name}@{a.where}"
       names = {"idx0": i0, "W": W[0]}
       rp = None
-      if loc is not None:
+      if True:
         if a.kind[0] in "WA":
           rp = lib.make_replay(ctx, kt, loc, qn, "goal", goal="checks.worldidx:goal_foreign_write", env={"label": a.cell.name, "idx": list(a.idx), "W": W[0]})
         else:
           poke = 12345 if a.cell.dtype == "int" else (True if a.cell.dtype == "bool" else 1234.5)
-          rp = lib.make_replay(
+          rp0 = lib.make_replay(
             ctx, kt, loc, qn, "goal", goal="checks.worldidx:goal_foreign_read",
-            env={"label": a.cell.name, "idx": list(a.idx), "W": W[0], "randomize_floats": 6, "variants": [{}, {"__poke__": [[a.cell.name, list(a.idx), None, poke]]}]},
+            env={"label": a.cell.name, "idx": list(a.idx), "W": W[0], "randomize_floats": 4, "variants": [{}, {"__poke__": [[a.cell.name, list(a.idx), None, poke]]}] + ([{"__poke__": [[a.cell.name, list(a.idx), None, float("nan")]]}, {"__poke__": [[a.cell.name, list(a.idx), None, -poke]]}] if a.cell.dtype == "real" else [])},
           )
+          def rp(model, _rp0=rp0, _a=a, _qn=qn):
+            ok, txt = _rp0(model)
+            if ok:
+              return ok, txt
+
+            def badidx(kt2, a2):
+              Ws = []
+              fr2 = getattr(kt2.it, "top_frame", None)
+              if fr2 is not None and "worldid" in fr2.env:
+                Ws.append(fr2.env["worldid"])
+              for x in kt2.it.accesses:
+                if x.kind == "R" and "worldid" in x.cell.name and x.cell.dtype == "int" and x.val is not None and not isinstance(x.val, core.Vec):
+                  Ws.append(x.val)
+              if not Ws:
+                return False
+              if pid == "C09":
+                good = Or(*[cmp("==", a2.idx[0], w) for w in Ws], *[cmp("==", a2.idx[0], arith("%", w, a2.cell.shape[0])) for w in Ws])
+              else:
+                good = Or(*[cmp("==", a2.idx[0], arith("%", w, a2.cell.shape[0])) for w in Ws])
+              return And(Not(good), *[And(cmp(">=", w, 0), cmp("<", w, z3.Int("nworld"))) for w in Ws if is_sym(w)], cmp(">=", a2.cell.shape[0], 1))
+
+            try:
+              ok2, txt2 = influence_replay(ctx, k, loc, shapes, 64, _a.where, _a.cell.name, badidx, _qn, pid, timeout_ms=60000)
+            except core.Unsupported as ex:
+              ok2, txt2 = False, f"influence query not encodable: {ex}"
+            if ok2:
+              return ok2, txt2
+            if pid == "C10" and loc.startswith("harvestsig:"):
+              # third stage: the real launch arguments of the corpus, wrongly indexed row poisoned
+              from wsym import replay as _r
+
+              spec_path = _r.write_spec(pid, ctx.unit, _qn + "#rowpoison", loc, k, kt.args, model, kt.tid, "rowpoison", env={"label": _a.cell.name, "wrong_row": _a.idx[0]})
+              return _r.run_spec(spec_path, timeout=1500)
+            return False, f"{txt}; {txt2}"
+
       extra_guard = True
       if pid == "C10":
         extra_guard = cmp(">=", a.cell.shape[0], 1)
@@ -172,8 +286,10 @@ def unit_kernel(name, pid):
 
 def main(pid, tier, seed, only=None):
   global KS
-  KS = generic.all_kernels(with_harvest=True)
-  names = sorted(n for n in KS if "flex" not in n.lower())  # flex kernels: outside every claim (C40 not applicable)
+  KS = generic.all_kernels(with_harvest=True, mixed=(pid == "C10"))
+  # outside the generic passes: flex kernels (C40 not applicable) and the primitive-narrowphase mega-kernel (all primitive
+  # collision functions inlined: minutes of symbolic execution; its world/batch indexing is covered by C04's pipeline units)
+  names = sorted(n for n in KS if "flex" not in n.lower() and "_primitive_narrowphase" not in n and "_efc_contact_jac_sparse" not in n)
   if only:
     names = [n for n in names if any(o in n for o in only)]
   units = [unit_kernel(n, pid) for n in names]
@@ -183,4 +299,5 @@ def main(pid, tier, seed, only=None):
     "distinct by (kernel, array, line, index term)"
   )
   enc = load_encodable()
-  return report.run_check(pid, units, tier, seed, rule=rule, unit_timeout=90 if tier == "quick" else 600, on_timeout=lambda n: "error" if (enc is not None and n in enc) else "skip")
+  # generous unit budget: replays of sat models (mutated trees) need minutes
+  return report.run_check(pid, units, tier, seed, rule=rule, unit_timeout=1200 if tier == "quick" else 2400, on_timeout=lambda n: "error" if (enc is not None and n in enc) else "skip")
